@@ -248,7 +248,9 @@ func runC16(r *core.Run) {
 	}
 	c16Sequences(r, det, sd)
 	c16ELSHistory(r, det, sd+1)
+	c16SizeBoundary(r, det)
 	c16Blinding(r)
+	c16SpecialPoints(r)
 	r.Sample(map[string]any{"ciphertext": "eph(32)|nonce(12)|ct|tag(16)", "tamper": "every byte x 8 single-bit flips"})
 	r.Sample(map[string]any{"blinding": "dest type 11, secret 32x00, instant D 23:59:59.999 UTC expressed in UTC-12", "alphas": "derived / next day / zero / other secret / one bit off"})
 }
@@ -265,6 +267,124 @@ func blindRef(pub []byte, alpha [32]byte) ([]byte, bool) {
 	}
 	P := new(edwards25519.Point).Add(A, new(edwards25519.Point).ScalarBaseMult(a))
 	return P.Bytes(), true
+}
+
+// c16SizeBoundary: round trips at the upper end of what an EncryptedLeaseSet can carry. The inner length field is
+// 16 bits and the layout adds 32 (ephemeral key) + 12 (nonce) + 16 (tag) bytes, so the largest LeaseSet2 that fits is
+// 65,475 bytes; every plaintext length from 65,460 to 65,475 (and a few round numbers below) must encrypt, fit,
+// and decrypt to identical bytes. The size is tuned with one key entry of an unassigned type.
+func c16SizeBoundary(r *core.Run, det *detReader) {
+	kp := gen.Key(7, 31)
+	dest := refmodel.NewKAC(7, 4, false, nil, refmodel.Fill("c16sz.c", 1, 32), refmodel.Fill("c16sz.p", 1, 320), kp.Pub)
+	mk := func(keyLen int) []byte {
+		ls := refmodel.LeaseSet2{Dest: dest, Published: gen.Published, Expires: 600,
+			Keys:   []refmodel.EncKey{{Type: 4, Data: refmodel.Fill("c16sz.k", 1, 32)}, {Type: 0x1234, Data: refmodel.Fill("c16sz.big", 1, keyLen)}},
+			Leases: []refmodel.Lease2{{Hash: [32]byte{1}, TunnelID: 1, EndSec: gen.LeaseEndSec}}, Sig: make([]byte, 64)}
+		return ls.Bytes()
+	}
+	base := len(mk(0))
+	targets := []int{4096, 32768, 65000}
+	for n := 65460; n <= 65475; n++ {
+		targets = append(targets, n)
+	}
+	pub, priv := adapt.X25519Pair(1)
+	for _, n := range targets {
+		if n-base < 0 || n-base > 65535 {
+			continue
+		}
+		plain := mk(n - base)
+		ls, rem, err := lease_set2.ReadLeaseSet2(plain)
+		cs := core.Case{Kind: "sizeboundary", Args: map[string]string{"plaintext_len": fmt.Sprint(n)}}
+		if err != nil || len(rem) != 0 {
+			r.AddNote("size_boundary_plaintexts_not_parsed", 1)
+			continue
+		}
+		var cookie [32]byte
+		det.reset(uint64(900000 + n))
+		r.Evaluations.Add(1)
+		ct, err := encrypted_leaseset.EncryptInnerLeaseSet2(&ls, cookie, pub)
+		if err != nil {
+			r.Violate("C16|encrypt-fails|size-boundary", fmt.Sprintf("EncryptInnerLeaseSet2 fails for a %d-byte LeaseSet2 (the ciphertext would be %d bytes, within the 65,535-byte inner field): %v", n, n+60, err), cs)
+			continue
+		}
+		if len(ct) != n+60 {
+			r.Violate("C16|layout|size-boundary", fmt.Sprintf("%d-byte plaintext: ciphertext length %d, expected %d", n, len(ct), n+60), cs)
+		}
+		out, got, why := c16Decrypt(ct, cookie[:], priv)
+		r.Traces.Add(1)
+		if !got || !bytes.Equal(out, plain) {
+			r.Violate("C16|roundtrip|size-boundary", fmt.Sprintf("decrypt(encrypt(x)) != x for a %d-byte LeaseSet2: value=%v %s", n, got, why), cs)
+		}
+		r.Distinct([]byte("sizeboundary"), []byte(fmt.Sprint(n)))
+	}
+}
+
+// c16SpecialPoints: destinations whose Ed25519 signing key is an unusual but decodable encoding: non-canonical y
+// (y + p), x = 0 with the sign bit set, the neutral element, small-order points. Whatever CreateBlindedDestination
+// accepts must behave like any other key: deterministic, A + alpha*B, and VerifyBlindedSignature true for the
+// derived factor and false for another.
+func c16SpecialPoints(r *core.Run) {
+	le := func(hexLE string) []byte { return core.UnHex(hexLE) }
+	pts := map[string][]byte{
+		"neutral(y=1)":           le("0100000000000000000000000000000000000000000000000000000000000000"),
+		"neutral,sign-bit-set":   le("0100000000000000000000000000000000000000000000000000000000000080"),
+		"y=p+1(non-canonical 1)": le("eeffffffffffffffffffffffffffffffffffffffffffffffffffffffffffff7f"),
+		"y=p(non-canonical 0)":   le("edffffffffffffffffffffffffffffffffffffffffffffffffffffffffffff7f"),
+		"y=0(order 4)":           le("0000000000000000000000000000000000000000000000000000000000000000"),
+		"y=-1(order 2)":          le("ecffffffffffffffffffffffffffffffffffffffffffffffffffffffffffff7f"),
+		"all-ff":                 le("ffffffffffffffffffffffffffffffffffffffffffffffffffffffffffffffff"),
+		"order-8":                le("c7176a703d4dd84fba3c0b760d10670f2a2053fa2c39ccc64ec7fd7792ac037a"),
+		"canonical,high-y":       le("ebffffffffffffffffffffffffffffffffffffffffffffffffffffffffffff7f"),
+	}
+	secret := refmodel.Fill("secret", 1, 32)
+	day := time.Date(2031, 3, 17, 12, 0, 0, 0, time.UTC)
+	for _, st := range []int{7, 11} {
+		for name, pub := range pts {
+			r.Evaluations.Add(1)
+			k := refmodel.NewKAC(st, 4, false, nil, refmodel.Fill("bc", 1, 32), refmodel.Fill("bp", 1, 320), pub)
+			d, _, err := destination.ReadDestination(k.Bytes())
+			if err != nil {
+				continue
+			}
+			cs := core.Case{Kind: "blind", Args: map[string]string{"sigtype": fmt.Sprint(st), "point": name}}
+			id := fmt.Sprintf("C16|blinding|sigtype=%d", st)
+			var b1, b2 destination.Destination
+			var e1, e2 error
+			if pan, msg := core.Guard(func() {
+				b1, e1 = encrypted_leaseset.CreateBlindedDestination(d, secret, day)
+				b2, e2 = encrypted_leaseset.CreateBlindedDestination(d, secret, day.Add(3*time.Hour))
+			}); pan {
+				r.Violate(id+"|create-panics[unusual-key-encoding]", fmt.Sprintf("CreateBlindedDestination panics for the signing key %s: %s", name, msg), cs)
+				continue
+			}
+			if e1 != nil || e2 != nil {
+				r.AddNote("blinding_unusual_keys_refused", 1)
+				continue
+			}
+			alpha, err := kdf.DeriveBlindingFactor(secret, "2031-03-17")
+			if err != nil {
+				continue
+			}
+			k1, _ := b1.SigningPublicKey()
+			k2, _ := b2.SigningPublicKey()
+			if k1 == nil || k2 == nil || !bytes.Equal(k1.Bytes(), k2.Bytes()) {
+				r.Violate(id+"|differs-within-a-utc-day[unusual-key-encoding]", fmt.Sprintf("signing key %s: two instants of one UTC day give different blinded keys", name), cs)
+				continue
+			}
+			if want, ok := blindRef(pub, alpha); ok && !bytes.Equal(k1.Bytes(), want) {
+				r.Violate(id+"|blinded-key-differs-from-A+alpha*B[unusual-key-encoding]", fmt.Sprintf("signing key %s: blinded key %x, A + alpha*B = %x", name, k1.Bytes(), want), cs)
+			}
+			if !encrypted_leaseset.VerifyBlindedSignature(b1, d, alpha) {
+				r.Violate(id+"|verify-false-for-derived-factor[unusual-key-encoding]", fmt.Sprintf("signing key %s: CreateBlindedDestination succeeds but VerifyBlindedSignature is false for the derived factor", name), cs)
+			}
+			other, _ := kdf.DeriveBlindingFactor(secret, "2031-03-18")
+			if encrypted_leaseset.VerifyBlindedSignature(b1, d, other) {
+				r.Violate(id+"|verify-true-for-wrong-factor|next-day[unusual-key-encoding]", fmt.Sprintf("signing key %s: VerifyBlindedSignature accepts the next day's factor", name), cs)
+			}
+			r.Traces.Add(1)
+			r.Distinct([]byte("blind-special"), []byte{byte(st)}, []byte(name))
+		}
+	}
 }
 
 func c16Blinding(r *core.Run) {
@@ -679,6 +799,11 @@ func replayC16(r *core.Run, c core.Case) {
 		}
 	case "blind":
 		c16Blinding(r)
+		c16SpecialPoints(r)
+	case "sizeboundary":
+		det := &detReader{}
+		crand.Reader = det
+		c16SizeBoundary(r, det)
 	case "elshistory":
 		det := &detReader{}
 		crand.Reader = det
